@@ -29,12 +29,14 @@ import (
 	"net"
 	"net/http"
 	"os"
+	"os/signal"
 	"path/filepath"
 	"sort"
 	"strconv"
 	"strings"
 	"sync"
 	"sync/atomic"
+	"syscall"
 	"time"
 
 	"github.com/anishathalye/porcupine"
@@ -60,6 +62,8 @@ func main() {
 			"peer servers named in authorized-server records point to a sink HTTP server inside the child (the server's fan-out is answered with 200 and ignored)",
 			"an empty gcaPubKey.dat placed before the first start stands for the residue of a crash during a registration that never completed; such a server counts as unregistered",
 			"a registration issued while a directory occupies the path gcaPubKey.dat (write fault injected from outside, removed right after the call) may be refused; whatever it answers, the model state, the server's key state and every later answer must agree",
+			"a registration issued under RLIMIT_FSIZE = 1..31 (process wide, restored right after the call, SIGXFSZ ignored) has its key file write cut short; it may be refused and may leave bytes in gcaPubKey.dat (counted, not judged, and no restart happens in that state); the next accepted registration must leave exactly its 32 bytes, also after restarts",
+			"a migration order is well formed only if the server entries it lists are signed by the NewGCA it names; an order signed by the registered key whose list re-uses entries signed by another key is expected to be refused",
 			"the all-zero key is a legitimate GCA key (one sequential history in five registers it, one concurrent batch in five has it among the candidates); nobody can sign for it, so after it is registered nothing at all is honoured",
 			"records that name an existing server key are judged by their effect on the server list (snapshot and GET), not by the HTTP status; what the registered key itself may change about an existing entry is C17's subject, here only a ban by it must take effect",
 			"archive downloads are not part of the model (any answer accepted); they are only used as interference around the registration, whose durability (file, memory, restart, later registrations) is what is judged",
@@ -92,6 +96,10 @@ func main() {
 			c.Require("seq.restarts", 5)
 			c.Require("seq.winner_is_zero_key", 3)
 			c.Require("seq.failed_persist_registration_refused", 3)
+			c.Require("seq.cut_write_registrations", 3)
+			c.Require("laundering.orders_with_foreign_list_accepted", 5)
+			c.Require("laundering.foreign_entries_refused", 10)
+			c.Require("laundering.orders_reusing_own_entries_refused", 5)
 			c.Require("conc.batches_with_zero_key_candidate", 3)
 			c.Require("conc.batches", 10)
 			c.Require("conc.nontrivial_batches", 5)
@@ -501,8 +509,11 @@ type ctx struct {
 	// sequentially judged part ("" = unset). It has one element unless a call's
 	// HTTP exchange failed (outcome unknown); inspect narrows it again.
 	states []string
-	reader int  // client id under which observations of the key state are recorded
-	bad    bool // a violation was raised in this history
+	reader int // client id under which observations of the key state are recorded
+	// residue: a registration attempt was cut short inside the key file write; until a
+	// registration is accepted the file may hold what that attempt left behind
+	residue bool
+	bad     bool // a violation was raised in this history
 }
 
 // do issues the call and records it at the client boundary.
@@ -684,6 +695,8 @@ func (x *ctx) inspect(where string) {
 	}
 	file, err := os.ReadFile(filepath.Join(x.srv.Dir, "gcaPubKey.dat"))
 	switch {
+	case !set && x.residue:
+		x.r.Count(fmt.Sprintf("obs.key_file_bytes_left_by_cut_write.%d", len(file)), 1)
 	case !set && err == nil && len(file) != 0:
 		x.violation("key-file-written-without-registration", extra, "%s: gcaPubKey.dat holds %d bytes although no registration was accepted", where, len(file))
 	case set && (err != nil || !bytes.Equal(file, want[:])):
@@ -924,6 +937,8 @@ func (x *ctx) foreignOrder(cands []refenc.Key) *call {
 	}
 }
 
+var ignoreXFSZ sync.Once
+
 func seqHistory(b run.Batch, r *ev.Result, sink uint16, idx int) {
 	x, err := newCtx(b, r, sink, fmt.Sprintf("seq%d", idx), b.Seed+int64(idx)*104729)
 	if err != nil {
@@ -1012,19 +1027,44 @@ func seqHistory(b run.Batch, r *ev.Result, sink uint16, idx int) {
 
 	// a valid registration that fails at the write of gcaPubKey.dat must leave no authority behind
 	var regs []*call
+	partialWrite := idx%5 == 4
 	if failedPersist {
 		path := filepath.Join(x.srv.Dir, "gcaPubKey.dat")
-		run.Op("%s gcaPubKey.dat becomes unwritable (a directory takes its place)", x.name)
-		os.Remove(path)
-		if err := os.Mkdir(path, 0755); err != nil {
-			r.Inconc("cannot inject the write fault: " + err.Error())
-			return
-		}
 		failed := cands[len(cands)-1]
 		fc := g.register(failed.Pub, g.temp, "temp", "valid")
-		fc.Faulted, fc.Label = true, "temp/valid-key-file-unwritable"
-		ok := x.judge(0, fc)
-		os.Remove(path)
+		fc.Faulted = true
+		var ok bool
+		if partialWrite {
+			// the write of the key file is cut short after k bytes: RLIMIT_FSIZE = k for this one
+			// request (process wide; SIGXFSZ ignored, so the write returns a short count, then EFBIG)
+			ignoreXFSZ.Do(func() { signal.Ignore(syscall.SIGXFSZ) })
+			k := 1 + g.rng.Intn(31)
+			fc.Label = "temp/valid-key-file-write-cut"
+			var old syscall.Rlimit
+			if err := syscall.Getrlimit(syscall.RLIMIT_FSIZE, &old); err != nil {
+				r.Inconc("getrlimit: " + err.Error())
+				return
+			}
+			run.Op("%s RLIMIT_FSIZE=%d for the next registration", x.name, k)
+			if err := syscall.Setrlimit(syscall.RLIMIT_FSIZE, &syscall.Rlimit{Cur: uint64(k), Max: old.Max}); err != nil {
+				r.Inconc("setrlimit: " + err.Error())
+				return
+			}
+			ok = x.judge(0, fc)
+			syscall.Setrlimit(syscall.RLIMIT_FSIZE, &old)
+			x.residue = true
+			r.Count("seq.cut_write_registrations", 1)
+		} else {
+			run.Op("%s gcaPubKey.dat becomes unwritable (a directory takes its place)", x.name)
+			os.Remove(path)
+			if err := os.Mkdir(path, 0755); err != nil {
+				r.Inconc("cannot inject the write fault: " + err.Error())
+				return
+			}
+			fc.Label = "temp/valid-key-file-unwritable"
+			ok = x.judge(0, fc)
+			os.Remove(path)
+		}
 		if !ok {
 			return
 		}
@@ -1032,6 +1072,7 @@ func seqHistory(b run.Batch, r *ev.Result, sink uint16, idx int) {
 			r.Count("seq.failed_persist_registration_refused", 1)
 		} else {
 			r.Count("seq.failed_persist_registration_accepted", 1)
+			x.residue = false
 		}
 		regs = append(regs, fc)
 		for round := 0; round < 2; round++ {
@@ -1048,7 +1089,8 @@ func seqHistory(b run.Batch, r *ev.Result, sink uint16, idx int) {
 				return
 			}
 			if round == 0 {
-				if g.rng.Intn(2) == 0 {
+				// (no restart on top of a cut key file: what a server does with such a file at start-up is C05's subject)
+				if partialWrite || g.rng.Intn(2) == 0 {
 					break
 				}
 				if !x.restart() {
@@ -1066,6 +1108,9 @@ func seqHistory(b run.Batch, r *ev.Result, sink uint16, idx int) {
 		return
 	}
 	r.Count("seq.registration_accepted", 1)
+	if len(x.states) == 1 && x.states[0] != "" {
+		x.residue = false // from here on the file must hold exactly the accepted key
+	}
 	x.inspect("after registration")
 	if x.bad {
 		return
@@ -1322,6 +1367,61 @@ func (x *ctx) existingServerProbes(winner, loser refenc.Key) bool {
 		return false
 	}
 	x.inspect("after records for existing servers")
+	if x.bad {
+		return false
+	}
+
+	// laundering through an accepted order: the registered GCA validly orders a migration to GCA2 and lists
+	// GCA2's servers (signed by GCA2, as an order must). The very same entries, byte for byte, are then
+	// submitted as server authorizations: they carry a foreign signature and must change nothing.
+	gca2 := refenc.GenKey(g.rng)
+	e1 := mk().Signed(gca2.Priv)
+	e2 := a
+	e2.Banned = true
+	e2 = e2.Signed(gca2.Priv) // would ban the GCA's own server a
+	m := refenc.Migration{Equipment: refenc.GenKey(g.rng).Pub, NewGCA: gca2.Pub, NewID: uint32(g.rng.Intn(1 << 20)), Servers: []refenc.AuthServer{e1, e2}}.Signed(winner.Priv)
+	if !x.judge(0, &call{Kind: "migrate", Label: "registered-gca/valid-listing-foreign-servers", Path: "/api/v1/equipment-migrate", Body: m.JSON(), Signed: true, Signer: winner.Pub}) {
+		return false
+	}
+	x.r.Count("laundering.orders_with_foreign_list_accepted", 1)
+	for round := 0; round < 2; round++ {
+		snap0, get0, ok0 := x.serverLists()
+		for i, e := range []refenc.AuthServer{e1, e2} {
+			label := []string{"new-server", "ban-of-own-server"}[i] + "/new-gca-of-accepted-order/valid"
+			rc := post(e, label)
+			snap1, get1, ok1 := x.serverLists()
+			if !sameServers(snap0, snap1) || (ok0 && ok1 && !sameRefServers(get0, get1)) {
+				x.violation("server-entry-of-accepted-order-honoured-as-authorization:"+[]string{"new-server", "ban-of-own-server"}[i],
+					map[string]interface{}{"record": string(e.JSON()), "order": string(m.JSON()), "status": rc.Status},
+					"a server entry signed by the new GCA of an accepted migration order, posted as server authorization, changed the server list (answer: %s, HTTP %d)", outName[rc.Out], rc.Status)
+				return false
+			}
+			x.r.Count("laundering.foreign_entries_refused", 1)
+		}
+		// the order once more (a GCA repeats the list for every device), then the entries again
+		m2 := m
+		m2.Equipment = refenc.GenKey(g.rng).Pub
+		m2 = m2.Signed(winner.Priv)
+		if !x.judge(0, &call{Kind: "migrate", Label: "registered-gca/valid-listing-foreign-servers", Path: "/api/v1/equipment-migrate", Body: m2.JSON(), Signed: true, Signer: winner.Pub}) {
+			return false
+		}
+	}
+	// reverse direction: entries accepted as authorizations of the registered GCA are re-used, byte for
+	// byte, as the server list of an order that names another new GCA
+	gca3 := refenc.GenKey(g.rng)
+	rm := refenc.Migration{Equipment: refenc.GenKey(g.rng).Pub, NewGCA: gca3.Pub, NewID: uint32(g.rng.Intn(1 << 20)), Servers: []refenc.AuthServer{a, ban}}.Signed(winner.Priv)
+	run.Op("%s migrate registered-gca/list-reuses-own-authorizations", x.name)
+	rc = x.do(0, &call{Kind: "migrate-reuse", Label: "registered-gca/list-reuses-own-authorizations", Path: "/api/v1/equipment-migrate", Body: rm.JSON()})
+	_, stored := x.srv.S.VerifSnapshot(false).Migrations[rm.Equipment]
+	if rc.Out == outOK || stored {
+		x.violation("migration-order-with-list-not-signed-by-its-new-gca-accepted", map[string]interface{}{"order": string(rm.JSON()), "status": rc.Status, "stored": stored},
+			"an order naming a new GCA whose server list is signed by the registered GCA instead (entries accepted earlier as authorizations) was accepted (answer %s, stored=%v)", outName[rc.Out], stored)
+		return false
+	}
+	if rc.Out == outFail {
+		x.r.Count("laundering.orders_reusing_own_entries_refused", 1)
+	}
+	x.inspect("after laundering attempts")
 	return !x.bad
 }
 
